@@ -142,6 +142,46 @@ package model
 //@   opt alloc=1
 //@   modifies alloc, fresh GoValueNode.*
 //@   ensures[C01,C02,C04] field: err == nil ==> vn != nil && typeof(vn) == typeid(*GoValueNode) && as(vn, *GoValueNode).thisValue == rv_field(objOf(node.thisValue), field)
+// JSON facts are READ the same way: an array element / a member is the content (Elem) of the addressed interface slot of the
+// []interface{} / map[string]interface{} the node wraps, and the child node wraps exactly that
+//@ func (vn *JSONValueNode) ContinueWithValue(value, identifiedAs) (r)
+//@   serves C01 C02 C04
+//@   requires vn != nil
+//@   nopanic
+//@   opt alloc=1
+//@   modifies alloc, fresh JSONValueNode.*
+//@   ensures[C01,C02,C04] wraps: r != nil && typeof(r) == typeid(*JSONValueNode) && as(r, *JSONValueNode).data == value && as(r, *JSONValueNode).parent == vn
+//@ func (vn *JSONValueNode) IsArray() (r)
+//@   requires vn != nil
+//@   nopanic
+//@   modifies
+//@   ensures r == (vn.data.kind == 17 || vn.data.kind == 23)
+//@ func (vn *JSONValueNode) IdentifiedAs() (s)
+//@   requires vn != nil
+//@   nopanic
+//@   modifies
+//@ func (vn *JSONValueNode) GetArrayValueAt(index) (val, err)
+//@   serves C01 C02 C04
+//@   requires vn != nil
+//@   modifies
+//@   ensures[C01,C02,C04] element: err == nil ==> val == rv_elem(rv_index(vn.data, index))
+//@ func (vn *JSONValueNode) GetChildNodeByIndex(index) (r, err)
+//@   serves C01 C02 C04
+//@   requires vn != nil
+//@   opt alloc=1
+//@   modifies alloc, fresh JSONValueNode.*
+//@   ensures[C01,C02,C04] element: err == nil ==> r != nil && typeof(r) == typeid(*JSONValueNode) && as(r, *JSONValueNode).data == rv_elem(rv_index(vn.data, index))
+//@ func (vn *JSONValueNode) GetMapValueAt(index) (val, err)
+//@   serves C01 C02 C04
+//@   requires vn != nil
+//@   modifies
+//@   ensures[C01,C02,C04] entry: err == nil ==> index.kind == 24 && val == rv_elem(rv_mapindex(vn.data, index))
+//@ func (vn *JSONValueNode) GetChildNodeBySelector(index) (r, err)
+//@   serves C01 C02 C04
+//@   requires vn != nil
+//@   opt alloc=1
+//@   modifies alloc, fresh JSONValueNode.*
+//@   ensures[C01,C02,C04] entry: err == nil ==> r != nil && typeof(r) == typeid(*JSONValueNode) && as(r, *JSONValueNode).data == rv_elem(rv_mapindex(vn.data, index))
 // diagnostic name of a node (used in error messages only): ASSUMED effect-free and panic-free
 //@ extern func (node *GoValueNode) IdentifiedAs() (s)
 //@   nopanic
